@@ -198,6 +198,10 @@ func installedSets(thorough bool) []installed {
 		installed{name: "different-repository/registry.local:5000@digest", objs: []named{{"other", "registry.local:5000/acme/other@sha256:" + strings.Repeat("cd", 32)}}},
 		// A package preloaded into the cache (its source is a file name, not
 		// an image reference) is listed before the custom-named one.
+		// Kubernetes object names are DNS subdomains: dots, and up to 253
+		// characters - not what a derived (DNS label) name looks like.
+		installed{name: "custom-dotted-name/registry.example.com", objs: []named{{"aws.prod", "registry.example.com/" + pkgRepo + ":v1"}}},
+		installed{name: "custom-long-name/registry-less", objs: []named{{"my-" + strings.Repeat("very-", 13) + "long-pkg", pkgRepo + ":v1"}}},
 		installed{name: "preloaded-file-name+custom-name/registry.example.com", objs: []named{{"a-preloaded", "Preloaded_Package.xpkg"}, {"my-pkg", "registry.example.com/" + pkgRepo + ":v1"}}},
 	)
 	if thorough {
@@ -319,7 +323,10 @@ func faultBody(r *explore.Run, rep *report.R, sc string, cases []icase, reads bo
 	pre := snapshot(s)
 	r.Logf("initial store %s (%d objects; %s; packages %s); init %s", ic.name, len(pre.keys), describeSecrets(pre), describePackages(pre), ic.cfg)
 
-	inj := &xrh.FaultInjector{Run: r, Reads: reads, NotFoundReads: true}
+	// The initializer talks to the API server through a direct, uncached
+	// client (cmd/crossplane/core/init.go): a read never answers 404 for an
+	// object that exists, so that fault is not offered here.
+	inj := &xrh.FaultInjector{Run: r, Reads: reads}
 	if !reads {
 		// Quick tier: of the 17 CRD applies (identical code path, one call
 		// pair each) only the first, a middle one and the conversion-webhook
@@ -426,6 +433,7 @@ func TestCheck(t *testing.T) {
 			}},
 			{Name: "abort-and-repeat/" + tier, Bound: 1, Wrap: wrap, Body: func(r *explore.Run) { faultBody(r, rep, "abort-and-repeat", fcases, th) }},
 			{Name: "installer-faults/" + tier, Bound: 1, Wrap: wrap, Body: func(r *explore.Run) { installerFaultBody(r, rep, "installer-faults", installerCases()) }},
+			{Name: "service-names/" + tier, Bound: 0, Wrap: wrap, Body: func(r *explore.Run) { dnsBody(r, rep, "service-names") }},
 		}
 	}
 	scs := scenarios(th)
